@@ -112,16 +112,39 @@ def linnice(ctx, R):
                 ok = False
     R.check(ok and (r is dom), "C14.LINNICE", f.qual, where(f), "linearNice(domain, m): d3_scale_nice(domain, niceStep(tickRange(domain, m).step)), %d pass(es), returns the domain" % len(nices), "linear nice does not floor/ceil the current domain to the step of its own tick range with the same count (calls: %s)" % [(c[0], c[2]) for c in calls])
     g = P.func("scale.LinearScale.nice")
-    ev = new_eval(P, inline_filter=lambda fn: fn.qual not in (f.qual, "scale.LinearScale.rescale"))
+    seen = []
+
+    def hook2(fv, args, kwargs, node, st_):
+        if isinstance(fv, Closure) and fv.func.qual == f.qual:
+            seen.append((list(args), dict(kwargs)))
+            # linearNice rounds the list it is given in place and returns it
+            return args[0] if args else Opaque("NICED")
+        if isinstance(fv, Closure) and fv.func.qual == "scale.LinearScale.rescale":
+            return fv.selfv
+        return None
+
+    ev = new_eval(P, on_call=hook2)
     st = ev.new_state(g)
     s = Opaque("self", cls=P.cls("scale.LinearScale"), kind="obj")
+    cell = Seq("list", [Opaque("d0"), Opaque("d1")], ident="P:DOM")
+    st.heap[("self", "_domain")] = cell
     ev.call_closure(Closure(g, None, selfv=s), [Opaque("m")], {}, st)
-    evs = [e for e in st.events if e[0] == "call-noinline" or e[0] == "call-unknown"]
-    called = [e for e in st.events if e[0] in ("call-noinline",)]
-    # with inline_filter the non-inlined calls are not logged as events; check by AST instead
-    cs = [c for c in calls_in(g.node) if ntext(c.func) == "d3_scale_linearNice"]
-    ok = len(cs) == 1 and len(cs[0].args) >= 1 and ntext(cs[0].args[0]) == "self._domain" and (len(cs[0].args) < 2 or ntext(cs[0].args[1]) == g.params[1])
-    R.check(ok, "C14.LINNICE", g.qual, where(g), "LinearScale.nice(m) nices self._domain with m", "LinearScale.nice does not call d3_scale_linearNice(self._domain, m)")
+    ok = len(seen) == 1
+    detail = "%d calls of d3_scale_linearNice" % len(seen)
+    if ok:
+        args, kwargs = seen[0]
+        marg = args[1] if len(args) > 1 else kwargs.get("m")
+        given = args[0] if args else None
+        # the list handed over is the current domain (itself or a copy of it), the count is the caller's
+        ok = given is not None and (given is cell or (isinstance(given, Seq) and key(given) == key(cell))) and marg is not None and key(marg) == "m"
+        detail = "called with (%s, %s)" % (show(given) if given is not None else None, show(marg) if marg is not None else None)
+        if ok:
+            # ... and what the scale holds afterwards is the rounded list
+            after = st.heap.get(("self", "_domain"))
+            ok = after is given
+            if not ok:
+                detail = "the rounded list is not what the scale keeps as its domain (%s)" % show(after)
+    R.check(ok, "C14.LINNICE", g.qual, where(g), "LinearScale.nice(m) rounds its current domain with m and keeps the result", "LinearScale.nice does not round its own domain with the caller's count and keep the result: %s" % detail)
 
 
 TS = "scale.TimeScale"
@@ -309,4 +332,7 @@ def _lazy(mod, fn, rid):
 
 # nicing moves the ends outward only if the unit floors really round down and the offsets move by whole units
 RULES = [pairing, stepfns, linnice, time_nice, samecount, ceil_rule, state_rule,
-         _lazy("c17", "unittable", "C17.UNITTABLE"), _lazy("c17", "monthstep", "C17.MONTHSTEP"), _lazy("c17", "round_rule", "C17.ROUND")]
+         _lazy("c17", "unittable", "C17.UNITTABLE"), _lazy("c17", "monthstep", "C17.MONTHSTEP"), _lazy("c17", "round_rule", "C17.ROUND"),
+         # sub-second ticks: nice() decides "this end is on a tick" by asking the millisecond interval for the ticks in
+         # [end, end + 1 ms), which is right only if its range starts at the first multiple of the step at or after `end`
+         _lazy("c16", "rangeint", "C16.RANGEINT")]
